@@ -51,7 +51,7 @@ Init == /\ ph = 0
                  \/ c = [fam |-> "fitspace", K |-> Knots(o, g), Y |-> y]
                  \/ n >= 3 /\ c = [fam |-> "fitopt", K |-> Knots(o, g), Y |-> y]
                  \* 1/ScaleThin of the data sets, each with one of the six scales
-                 \/ /\ Hash2(n, g, y) % ScaleThin = 0
+                 \/ /\ n >= 3 /\ Hash2(n, g, y) % ScaleThin = 0
                     /\ c = [fam |-> "scale", K |-> Knots(o, g), Y |-> y, v |-> ((Hash2(n, g, y) \div ScaleThin) % 6) + 1]
 Next == ph = 0 /\ ph' = 1 /\ UNCHANGED c
 Spec == Init /\ [][Next]_vars
